@@ -109,12 +109,25 @@ def evaluate(
   with contextlib.redirect_stdout(stdout):
     if isinstance(code_block.body[-1], (ast.Expr, ast.Assign)):   # pytype: disable=attribute-error
       last_expr = code_block.body.pop()  # pytype: disable=attribute-error
-      result_vars = [RESULT_KEY]
 
+      # For a trailing assignment, the right-hand side is evaluated as the
+      # result and then assigned to all targets (names, subscripts, attributes
+      # and unpacking) by Python itself.
+      assign_result = None
       if isinstance(last_expr, ast.Assign):
-        for name_node in last_expr.targets:
-          if isinstance(name_node, ast.Name):
-            result_vars.append(name_node.id)
+        assign_result = ast.Module(
+            body=[
+                ast.copy_location(
+                    ast.Assign(
+                        targets=last_expr.targets,
+                        value=ast.Name(id=RESULT_KEY, ctx=ast.Load()),
+                    ),
+                    last_expr,
+                )
+            ],
+            type_ignores=[],
+        )
+        ast.fix_missing_locations(assign_result)
 
       last_expr = ast.Expression(last_expr.value)  # pytype: disable=attribute-error
 
@@ -136,11 +149,11 @@ def evaluate(
         result = eval(  # pylint: disable=eval-used
             compile(last_expr, '', mode='eval'), global_vars
         )
+        global_vars[RESULT_KEY] = result
+        if assign_result is not None:
+          exec(compile(assign_result, '', mode='exec'), global_vars)  # pylint: disable=exec-used
       except Exception as e:
         raise errors.CodeError(code, e) from e
-
-      for result_var in result_vars:
-        global_vars[result_var] = result
     else:
       try:
         exec(compile(code_block, '', mode='exec'), global_vars)  # pylint: disable=exec-used
